@@ -125,7 +125,8 @@ class Module:
             return self.sort_of(ast.parse(node.value, mode="eval").body)
         if isinstance(node, ast.Name):
             n = node.id
-            base = {"Int": S.TInt, "Bool": S.TBool, "Real": S.TReal, "Str": S.TStr, "Val": S.TVal, "Ref": S.TRef(None), "Exc": S.TExc}
+            base = {"Int": S.TInt, "Bool": S.TBool, "Real": S.TReal, "Str": S.TStr, "Val": S.TVal, "Ref": S.TRef(None), "Exc": S.TExc,
+                    "Bytes": S.TList(S.TInt)}
             if n in base:
                 return base[n]
             if n in self.sort_aliases:
